@@ -14,7 +14,9 @@ from vlib import env, tlc, trace, scripts, rawdrv, agent as ag, sesscheck, apidr
 from vlib.report import Check, confirm_by_replay
 from vlib.env import ToolError, SEED
 
-PAIRS = [("v2c", "v3-md5-des"), ("v1", "v3-sha1-aes"), ("v3-noauth", "v2c"), ("v3-md5", "v1"), ("v3-md5-aes", "v3-sha1-des"), ("v2c", "v2c")]
+PAIRS = [("v2c", "v3-md5-des"), ("v1", "v3-sha1-aes"), ("v3-noauth", "v2c"), ("v3-md5", "v1"), ("v3-md5-aes", "v3-sha1-des"), ("v2c", "v2c"),
+         # sessions of one process that use the same password bytes under different digests / ciphers
+         ("v3-md5-samepw", "v3-sha1-samepw"), ("v3-sha1-des-samepw", "v3-md5-aes-samepw")]
 BIG = ["1.3.6.1.4.1.%d.%d.%d" % (100000 + i, 200000 + i, 300000 + i) for i in range(420)]
 
 
@@ -80,7 +82,7 @@ def do_call(sess, agent, cfg, op, fate, k):
 
 
 def run_history(rec, pair, hist, k0):
-    std = scripts.std_cfgs()
+    std = scripts.all_cfgs()
     a = rec.n
     cfgs = {"A": std[pair[0]], "B": std[pair[1]]}
     sess = {"A": rawdrv.RawSession(rec, cfgs["A"], sid=1), "B": rawdrv.RawSession(rec, cfgs["B"], sid=2)}
